@@ -83,7 +83,7 @@ func TestEnumerationIsDistinctAndApplicable(t *testing.T) {
 	total := 0
 	for k, ex := range out.ex {
 		tree, _ := honest(ex)
-		ops := enumOps(k, ex, clone(tree), oc)
+		ops := enumOps(k, ex, clone(tree), oc, false)
 		total += len(ops)
 		seen := map[string]bool{}
 		for _, op := range ops {
